@@ -272,6 +272,50 @@ theorem mBlock_length [DecidableEq α] {gm got goq : M α} {ct cq : Nat} {t_a q_
     · simp only [pure, Except.pure, Except.ok.injEq] at h
       rw [← h]; exact hz2l
 
+theorem mapM_setCols_zip_rowlen {w : Nat} {cols : List Nat} {l v out : List (List α)}
+    (h : (l.zip v).mapM (fun p => setCols p.1 cols p.2) = .ok out) (hl : ∀ r ∈ l, r.length = w) :
+    ∀ r ∈ out, r.length = w := by
+  intro r hr
+  obtain ⟨k, hk⟩ := List.getElem?_of_mem hr
+  obtain ⟨p, hp, hset⟩ := forall₂_getElem?' (mapM_except _ _ _ h) k r hk
+  rw [setCols_length hset]
+  exact hl _ (List.of_mem_zip (List.mem_of_getElem? hp)).1
+
+/-- every row of the m-set block has `ct + cq` entries -/
+theorem mBlock_row_length [DecidableEq α] {gm got goq : M α} {ct cq : Nat} {t_a q_a t_n o_n q_n : List Nat}
+    {rows : List (List α)} (h : mBlock gm got goq ct cq t_a q_a t_n o_n q_n = .ok rows) :
+    ∀ r ∈ rows, r.length = ct + cq := by
+  unfold mBlock at h
+  obtain ⟨gmo, _, h⟩ := bind_ok h
+  obtain ⟨gmt, _, h⟩ := bind_ok h
+  obtain ⟨tq, _, h⟩ := bind_ok h
+  obtain ⟨z1, hz1, h⟩ := bind_ok h
+  have hz : ∀ r ∈ (gm.r.map fun _ => zeroRow (α := α) (ct + cq)), r.length = ct + cq := by
+    intro r hr
+    obtain ⟨_, _, rfl⟩ := List.mem_map.mp hr
+    exact zeroRow_length _
+  have h1 := mapM_setCols_zip_rowlen hz1 hz
+  split at h
+  · cases h
+  · obtain ⟨z2, hz2, h⟩ := bind_ok h
+    have h2 : ∀ r ∈ z2, r.length = ct + cq := by
+      cases hqp : tq.2 with
+      | none =>
+          rw [hqp] at hz2
+          simp only [pure, Except.pure, Except.ok.injEq] at hz2
+          rw [← hz2]; exact h1
+      | some qp =>
+          rw [hqp] at hz2
+          exact mapM_setCols_zip_rowlen hz2 h1
+    split at h
+    · obtain ⟨gmq, _, h⟩ := bind_ok h
+      obtain ⟨cur, _, h⟩ := bind_ok h
+      split at h
+      · cases h
+      · exact mapM_setCols_zip_rowlen h h2
+    · simp only [pure, Except.pure, Except.ok.injEq] at h
+      rw [← h]; exact h2
+
 end blocks
 
 end PyYetiVerif.Uset
